@@ -1,21 +1,20 @@
 SPECIFICATION Spec
 CONSTANTS
   Kind = "provider"
-  Starts <- StartsAll
-  Certs <- BoolBoth
+  Starts <- StartsUp
+  Certs <- BoolT
   Tmpls <- TmplPlain
   Drc0 <- DrcNamed
-  EnvKinds <- EnvSeq
-  Interf <- InterfDeps
+  EnvKinds <- EnvCalm
+  Interf <- InterfNone
   MaxEdits = 2
-  MaxFaults = 1
-  MaxRecs = 2
+  MaxFaults = 0
+  MaxRecs = 3
   MaxNest = 0
   MidEnv = FALSE
   GuardInactive = TRUE
   GuardHealth = TRUE
   OwnDelete = FALSE
 VIEW view
-ACTION_CONSTRAINT Emit
 CHECK_DEADLOCK FALSE
-PROPERTIES InactiveNeverCreates Owned Order HealthTruth
+PROPERTIES HandOverSafe
